@@ -419,7 +419,12 @@ impl Handler<VariablesRequest> for VariablesRequestHandler {
                     Variable::new("C - Carry", fmt(flags & 1)),
                 ]
             }
-            _ => panic!(),
+            reference => {
+                return Err(anyhow::anyhow!(format!(
+                    "Unknown variables reference: {}",
+                    reference
+                )))
+            }
         };
 
         let response = VariablesResponse { variables };
@@ -487,7 +492,10 @@ impl Handler<SetBreakpointsRequest> for SetBreakpointsRequestHandler {
         }
 
         let source = args.source.clone();
-        let source_path = args.source.path.as_ref().unwrap().clone();
+        let source_path = match args.source.path.as_ref() {
+            Some(path) => path.clone(),
+            None => return Err(anyhow::anyhow!("Cannot set breakpoints without a source path")),
+        };
 
         let line_column_pcs = args
             .breakpoints
@@ -495,13 +503,19 @@ impl Handler<SetBreakpointsRequest> for SetBreakpointsRequestHandler {
             .into_iter()
             .map(|bp| {
                 let line = if conn.lines_start_at_1 {
-                    bp.line - 1
+                    bp.line.saturating_sub(1)
                 } else {
                     bp.line
                 };
                 let column = bp
                     .column
-                    .map(|c| if conn.columns_start_at_1 { c - 1 } else { c });
+                    .map(|c| {
+                        if conn.columns_start_at_1 {
+                            c.saturating_sub(1)
+                        } else {
+                            c
+                        }
+                    });
 
                 // A single location may result in multiple breakpoints
                 let pcs = match conn.codegen() {
@@ -684,7 +698,17 @@ impl Handler<CompletionsRequest> for CompletionsRequestHandler {
         // gets the current symbol being completed.
         // assumes space separates each expression
         let curr_completion = {
-            let (beginning, _) = args.text.split_at(args.column);
+            // The column is the client's (possibly 1-based), and may lie behind the text or inside a character
+            let mut column = if conn.columns_start_at_1 {
+                args.column.saturating_sub(1)
+            } else {
+                args.column
+            }
+            .min(args.text.len());
+            while !args.text.is_char_boundary(column) {
+                column -= 1;
+            }
+            let (beginning, _) = args.text.split_at(column);
             match beginning.rsplit_once(' ') {
                 Some((_, text)) => text,
                 None => beginning,
